@@ -187,6 +187,17 @@ theorem decode_uses_own_charset (codecs : List Char → List Nat → Option (Lis
     exact getElem?_append_of_some h
   simp [decodeStep, hst]
 
+/-- for an argument that is neither `str` nor `bytes` the result is `str(x)` as it is at the time of *this* call,
+whatever the closure (or any other) was called on before - equal values, the same object printing differently
+earlier: nothing is remembered between calls -/
+theorem decode_object_is_str_at_call_time (codecs : List Char → List Nat → Option (List Char))
+    (ops₁ ops₂ : List DecodeOp) (j : Nat) (key : List Char) (strNow : List Char)
+    (h : (Spec.lookupsOf ops₁)[j]? = some key) :
+    (decodeStep codecs (decodeRun codecs [] (ops₁ ++ ops₂)).1 (.call j (.other strNow))).2 =
+      .result (some strNow) := by
+  rw [decode_uses_own_charset codecs ops₁ ops₂ j key _ h]
+  rfl
+
 /-! ## `encoding_errors='htmlentityreplace'` -/
 
 /-- every reference is `&name;` / `&#xH;` and decodes back to the character it stands for -/
